@@ -258,3 +258,75 @@ def check_fresh(ctx, res, prop):
 
     check_owners(ctx.repo, res, prop)
     check_update_uid_counter(ctx.repo, res, prop)
+
+
+def helper_contracts(repo, cname, directed, methods, writer_names):
+    """For each private writer helper: parameters that receive validated (materialised, hashable, non-None) values
+    at every call site inside the class. Returns {helper name: tuple(param names)} and the call-site census."""
+    ci = repo.get_class(cname)
+    calls = {}
+    for mname, fi in methods.items():
+        for val in valuations(fi.node, with_strings=True):
+            ma = MethodAnalysis(repo, fi, directed, val, writer_methods=writer_names)
+            ma.helper_post = lambda m, cname=cname: helper_postcondition(repo, cname, m, directed, writer_names)
+            try:
+                ma.run()
+            except Infeasible:
+                continue
+            except Unsupported:
+                continue
+            for (h, node, validated, conds, loops) in ma.helper_calls:
+                if h.startswith("_") and not h.startswith("__"):
+                    calls.setdefault(h, {}).setdefault((fi.qualname, node.lineno), []).append(tuple(validated))
+    contracts = {}
+    for h, sites in calls.items():
+        callee = repo.find_method(ci, h)
+        if callee is None:
+            continue
+        params = callee.params[1:]
+        trusted = []
+        for j, pn in enumerate(params):
+            ok = True
+            for site, vals in sites.items():
+                for v in vals:
+                    if j >= len(v) or not v[j]:
+                        ok = False
+            if ok and sites:
+                trusted.append(pn)
+        contracts[h] = tuple(trusted)
+    return contracts, {h: sorted(f"{q}:{l}" for (q, l) in sites) for h, sites in calls.items()}
+
+
+def run_class_with_helpers(ctx, res, prop, cname, directed, floor_direct, skip=()):
+    """Like run_class, for a class whose insertions go through private helpers: helpers are analysed under the
+    contract established at their call sites, and the public methods that call them are analysed as well."""
+    repo = ctx.repo
+    eng = Effects(repo)
+    direct, indirect = direct_writer_methods(repo, eng, cname)
+    writer_names = set(direct) | set(indirect)
+    methods = {m: f for m, f in {**indirect, **direct}.items() if m not in skip}
+    contracts, census = helper_contracts(repo, cname, directed, methods, writer_names)
+    res.extra["helper_contracts"] = {h: list(t) for h, t in contracts.items()}
+    res.extra["helper_call_sites"] = census
+    n = 0
+    paths = 0
+    for mname, fi in methods.items():
+        if ctx.only and ctx.only not in (fi.qualname, f"{cname}.{mname}"):
+            continue
+        if mname in COARSE:
+            if mname in direct:
+                n += 1
+                check_coarse(repo, eng, res, prop, cname, fi)
+            continue
+        calls_helper = any(isinstance(c, ast.Call) and isinstance(c.func, ast.Attribute) and isinstance(c.func.value, ast.Name) and c.func.value.id == fi.params[0] and c.func.attr in contracts for c in ast.walk(fi.node))
+        if mname not in direct and not calls_helper:
+            continue
+        if mname in direct:
+            n += 1
+        trusted = contracts.get(mname, ()) if (mname.startswith("_") and not mname.startswith("__")) else ()
+        paths += analyse_method(repo, res, prop, cname, fi, directed, writer_names, trusted=trusted)
+    res.floor(f"direct writer methods of {cname}", n, floor_direct if not ctx.only else 0)
+    res.counters["method x valuation walks"] = res.counters.get("method x valuation walks", 0) + paths
+    res.extra.setdefault("direct_writers", {})[cname] = sorted(direct)
+    res.extra.setdefault("indirect_writers", {})[cname] = sorted(indirect)
+    return eng, direct, indirect
